@@ -863,7 +863,7 @@ def known_findings(ctx, objdir, work, osets):
 
 # ================================================================ entry points
 def common_meta(ctx):
-    ctx.rule = ("cases = (a) generated call trees (<= 24 activations, depth <= 6; hooks none/-pg/-pg+recover/cygprof, "
+    ctx.rule = ("(see also the per-kind counters in boundary_hits: est:, threads=, finish:, hookvec:, xmm:level=) cases = (a) generated call trees (<= 24 activations, depth <= 6; hooks none/-pg/-pg+recover/cygprof, "
                 "tail chains 0-3) run on the real mcount_entry/mcount_exit/__cyg_profile_func_*; distinct = distinct "
                 "(tree, environment); non-trivial = at least one hooked activation; (b) xmm register files through the "
                 "real save/restore pair; (c) end-to-end: generated C program x build mode x -O x record options, "
@@ -877,7 +877,8 @@ def common_meta(ctx):
         "coq/theories/C01/Shadow.v: hand-written model of __mcount_entry/__mcount_exit/__plthook_entry/exit/"
         "__cygprof_entry/exit, mcount_auto_restore/rehook, mcount_rstack_restore/rehook (PLT frames are driven "
         "in-process on a fake module: libmcount/plthook.c is #included into the harness)",
-        "coq/theories/C01/ArchCtx.v: semantics of movsd/movq/movdqu/movups for the generated save/restore lists",
+        "coq/theories/C01/ArchCtx.v: semantics of movsd/movq/movdqu/movups/vmovdqu/vmovdqu64 on 512-bit registers for "
+        "the generated save/restore lists (legacy-SSE loads keep bits 128+, VEX/EVEX loads clear bits above the vector length)",
         "harness/c/c01_harness.c, props/c01.py, props/c01_progs.py (drivers, generators, comparison)",
         "gcc/binutils of the sandbox for the end-to-end programs and the objdump monitor",
     ]
@@ -888,14 +889,18 @@ def common_meta(ctx):
         "rsp (except the return slot handed to mcount_entry/plthook_entry) are left alone (System V ABI, "
         "compiler); xmm0-7 are what the generated save/restore pair gives back around the hook body (the six C "
         "wrappers; their bracket structure is re-read from the C text on every run and exercised in-process "
-        "with an xmm-clobbering libc stand-in); xmm8-15, AVX upper halves and x87 are NOT protected on paths "
-        "that reach libc; libmcount's own code is SSE-free (-mgeneral-regs-only, monitored by objdump)",
+        "with a libc stand-in that overwrites every vector register and ends with vzeroupper), all visible bits "
+        "of registers 0-7 on SSE/AVX/AVX-512 machines; registers 8-31, opmask registers and x87 are NOT protected "
+        "on paths that reach libc; libmcount's own code is SSE-free (-mgeneral-regs-only, monitored by objdump)",
         "mcount_find_code (called by __dentry__ without a wrapper) leaves all xmm registers alone",
         "-pg code keeps the parent's return slot at 8(%rbp) above the mcount call's own return address; at "
         "`call __fentry__` the parent's return slot is at 8(%rsp) (false for GNU C nested functions, which push "
         "%r10 first: known finding nested-function-mfentry, dedicated witness)",
         "return addresses of the program are never the address of mcount_return/dynamic_return/plthook_return",
         "no exception/longjmp/signal unwinding (C11), no fork/exec inside the hooks, mtdp->in_exception = false",
+        "the shadow state is per thread (mtd is thread-local) and thread stacks are disjoint",
+        "-pg code addresses its return slot as 8(%rbp) of the real frame (false after a DRAP stack realignment: known "
+        "finding pg-drap-realigned-stack, dedicated witness)",
         "dynamic linker lazy binding, thread schedules, compiler code generation: monitored end-to-end only",
     ]
 
